@@ -68,3 +68,22 @@ def replay(ctx, prop, relevant, what):
 TRUST = ("Trusted: Coq kernel; extraction (ExtrOcamlBasic only, Z/positive/nat kept inductive) and ml/kcp_driver.ml; the overlay harness "
          "(go1.26.8, testing/synctest fake clock via refTime); container/heap modelled as a sorted list (unique minimum inside one receive "
          "window); flush's three clock readings modelled as one; SNMP counters not modelled; protocol constants regenerated from the source.")
+
+
+def extra_statements(ctx, engine, vfile, obligations):
+    """Prove a further statement file and merge its proof keys into the evidence."""
+    before = dict(ctx.coverage)
+    ctx.prove(engine, vfile, obligations)
+    after = dict(ctx.coverage)
+    cov = before
+    cov["obligations"] = before.get("obligations", 0) + after.get("obligations", 0)
+    cov["discharged"] = before.get("discharged", 0) + after.get("discharged", 0)
+    cov["checker_cmd"] = (before.get("checker_cmd", "") + " ; " if before.get("checker_cmd") else "") + after.get("checker_cmd", "")
+    cov["trusted_base"] = before.get("trusted_base", []) + [t for t in after.get("trusted_base", []) if t.startswith("Print Assumptions")]
+    th = dict(before.get("theorems", {}))
+    th.update(after.get("theorems", {}))
+    cov["theorems"] = th
+    cov["axioms"] = sorted(set(before.get("axioms", [])) | set(after.get("axioms", [])))
+    if "coqchk" in after:
+        cov.setdefault("coqchk", {}).update(after["coqchk"])
+    ctx.coverage = cov
